@@ -33,6 +33,9 @@ Section SearchCorrect.
   Definition vals_between (lo hi : N) : list V := matching (firstn (N.to_nat (hi - lo - 1)) (skipn (N.to_nat lo) tbl)).
   Definition below (lo : N) : Prop := forall i e, nth_error tbl i = Some e -> (i < N.to_nat lo)%nat -> fst e < key.
 
+  Lemma in_firstn' {A} (l : list A) : forall m x, In x (firstn m l) -> In x l.
+  Proof. induction l as [|y r IH]; intros [|m] x H; cbn [firstn] in H; try contradiction. destruct H as [<-|H]; [left; reflexivity | right; eapply IH; exact H]. Qed.
+
   Lemma matching_app a b : matching (a ++ b) = matching a ++ matching b.
   Proof. unfold matching. rewrite filter_app, map_app. reflexivity. Qed.
 
@@ -53,18 +56,144 @@ Section SearchCorrect.
     - eapply (IH Hr i j); eauto. lia.
   Qed.
 
-  (* in a sorted list that starts at or above the key: the matching entries are the leading run *)
+  Lemma filter_none {A} (f : A -> bool) l : (forall e, In e l -> f e = false) -> filter f l = [].
+  Proof. induction l as [|x r IH]; intro H; [reflexivity|]. cbn [filter]. rewrite (H x (or_introl eq_refl)). apply IH. intros e He. apply H. right. exact He. Qed.
+
+  (* in a sorted list that starts at or above the key the matching entries are the leading run: read_ahead over the
+     first m entries collects exactly the matching ones among them *)
   Lemma read_ahead_matching : forall (l : list (N * V)) m, StronglySorted (fun a b => fst a <= fst b) l ->
-    (forall e, In e l -> key <= fst e) -> (length l <= m)%nat -> read_ahead key m l = matching l.
+    (forall e, In e l -> key <= fst e) -> read_ahead key m l = matching (firstn m l).
   Proof.
-    induction l as [|[k v] r IH]; intros m Hs Hge Hm; [destruct m; reflexivity|].
-    destruct m as [|m]; [cbn [length] in Hm; lia|]. cbn [read_ahead]. unfold matching. cbn [filter eqk fst].
+    induction l as [|[k v] r IH]; intros m Hs Hge; [destruct m; reflexivity|].
+    destruct m as [|m]; [reflexivity|]. cbn [read_ahead firstn]. unfold matching. cbn [filter]. change (eqk (k, v)) with (k =? key).
     apply StronglySorted_inv in Hs as [Hr Hx]. destruct (k =? key) eqn:E.
-    - cbn [map snd]. f_equal. apply IH; [exact Hr | intros e He; apply Hge; right; exact He | cbn [length] in Hm; lia].
+    - cbn [map snd]. f_equal. apply IH; [exact Hr | intros e He; apply Hge; right; exact He].
     - (* the first entry is larger than the key: so is every later one *)
       apply N.eqb_neq in E. assert (Hk : key < k) by (specialize (Hge (k, v) (or_introl eq_refl)); cbn [fst] in Hge; lia).
-      assert (Hnone : filter eqk r = []).
-      { apply filter_nil_all. intros e He. unfold eqk. apply N.eqb_neq. rewrite Forall_forall in Hx. specialize (Hx e He). cbn [fst] in Hx. lia. }
-      fold eqk. rewrite Hnone. reflexivity.
+      rewrite filter_none; [reflexivity|]. intros e He. unfold eqk. apply N.eqb_neq. apply in_firstn' in He.
+      rewrite Forall_forall in Hx. specialize (Hx e He). cbn [fst] in Hx. lia.
+  Qed.
+
+  (* the final window scan: in a sorted list whose entries before the first match are smaller, it appends exactly the
+     matching values (it stops at the first larger key, after which nothing matches) *)
+  Lemma scan_window_matching : forall (l : list (N * V)) m acc, StronglySorted (fun a b => fst a <= fst b) l ->
+    scan_window key m l acc = acc ++ matching (firstn m l).
+  Proof.
+    induction l as [|[k v] r IH]; intros m acc Hs; [destruct m; cbn; rewrite app_nil_r; reflexivity|].
+    destruct m as [|m]; [cbn; rewrite app_nil_r; reflexivity|]. cbn [scan_window firstn]. unfold matching. cbn [filter]. change (eqk (k, v)) with (k =? key).
+    apply StronglySorted_inv in Hs as [Hr Hx]. destruct (N.compare_spec key k) as [E|E|E].
+    - subst k. rewrite N.eqb_refl. rewrite (IH m (acc ++ [v]) Hr). unfold matching. cbn [map snd]. rewrite <- app_assoc. reflexivity.
+    - (* a larger key: nothing matches from here on *)
+      assert (E1 : (k =? key) = false) by (apply N.eqb_neq; lia). rewrite E1.
+      rewrite filter_none; [cbn; rewrite app_nil_r; reflexivity|]. intros e He. unfold eqk. apply N.eqb_neq. apply in_firstn' in He.
+      rewrite Forall_forall in Hx. specialize (Hx e He). cbn [fst] in Hx. lia.
+    - assert (E1 : (k =? key) = false) by (apply N.eqb_neq; lia). rewrite E1. apply (IH m acc Hr).
+  Qed.
+
+  (* ---- positions ---- *)
+  Lemma entry_some pi : 1 <= pi -> pi <= n -> exists e, entry tbl pi = Some e /\ nth_error tbl (N.to_nat (pi - 1)) = Some e.
+  Proof.
+    intros H1 H2. unfold entry. destruct (nth_error tbl (N.to_nat (pi - 1))) as [e|] eqn:E; [exists e; split; reflexivity|].
+    apply nth_error_None in E. unfold n in H2. lia.
+  Qed.
+
+  Lemma skipn_cons_nth {A} (l : list A) : forall i x, nth_error l i = Some x -> skipn i l = x :: skipn (S i) l.
+  Proof. induction l as [|y r IH]; intros [|i] x H; cbn in H; try discriminate; [injection H as ->; reflexivity | cbn [skipn]; apply IH; exact H]. Qed.
+
+  Lemma skipn_skipn' {A} : forall a m (l : list A), skipn m (skipn a l) = skipn (a + m) l.
+  Proof. induction a as [|a IH]; intros m l; [reflexivity|]. destruct l; [rewrite !skipn_nil; reflexivity | cbn [skipn plus]; apply IH]. Qed.
+
+  (* the matching values from position pi on: those in [pi, hi) followed by those from hi on *)
+  Lemma vals_ge_split pi hi : 1 <= pi -> pi <= hi ->
+    vals_ge pi = matching (firstn (N.to_nat (hi - pi)) (skipn (N.to_nat (pi - 1)) tbl)) ++ vals_ge hi.
+  Proof.
+    intros H1 H2. unfold vals_ge. rewrite <- matching_app. f_equal.
+    rewrite <- (firstn_skipn (N.to_nat (hi - pi)) (skipn (N.to_nat (pi - 1)) tbl)) at 1. f_equal.
+    rewrite skipn_skipn'. f_equal. lia.
+  Qed.
+
+  Lemma after_ge i e : nth_error tbl i = Some e -> forall x, In x (skipn i tbl) -> fst e <= fst x.
+  Proof.
+    intros Hi x Hx. apply In_nth_error in Hx as [j Hj].
+    assert (Hj' : nth_error tbl (i + j) = Some x).
+    { clear -Hj. revert i Hj. induction tbl as [|y r IH]; intros [|i] Hj; cbn [skipn] in Hj; [destruct j; discriminate | destruct j; discriminate | exact Hj | cbn [plus nth_error]; apply IH; exact Hj]. }
+    eapply (sorted_nth tbl Hsorted i (i + j)); eauto. lia.
+  Qed.
+
+  (* ---- the narrowing loop keeps its invariant, for every probe function ---- *)
+  Lemma loop1_spec : forall fuel lo lo_key hi hi_key pi acc,
+    (N.to_nat (hi - lo) <= fuel)%nat -> lo < hi -> hi <= n + 1 ->
+    (lo + READ_WINDOW_SIZE < hi -> lo < pi /\ pi < hi) ->
+    below lo -> Permutation acc (vals_ge hi) ->
+    exists lo' hi' acc', loop1 probe tbl fuel key lo lo_key hi hi_key pi acc = Some (lo', hi', acc') /\
+                         lo' < hi' /\ hi' <= n + 1 /\ below lo' /\ Permutation acc' (vals_ge hi').
+  Proof.
+    induction fuel as [|f IH]; intros lo lo_key hi hi_key pi acc Hfuel Hlh Hhi Hpi Hbelow Hacc.
+    - cbn [loop1]. destruct (lo + READ_WINDOW_SIZE <? hi) eqn:G; [lia|]. eauto 10.
+    - cbn [loop1]. destruct (lo + READ_WINDOW_SIZE <? hi) eqn:G; [|eauto 10].
+      apply N.ltb_lt in G. destruct (Hpi G) as [P1 P2].
+      destruct (entry_some pi) as (e & He & Hn); [lia | lia|]. rewrite He. destruct e as [pk pv].
+      unfold READ_WINDOW_SIZE, EXPECTED_MAX_NUM_DUPLICATES in *.
+      destruct (N.compare_spec key pk) as [E|E|E].
+      + (* found: collect the run from pi, continue on the left *)
+        subst pk. apply IH; try lia.
+        * exact Hbelow.
+        * rewrite (vals_ge_split pi hi) by lia.
+          rewrite (skipn_cons_nth _ _ _ Hn). replace (N.to_nat (hi - pi)) with (S (N.to_nat (hi - pi - 1))) by lia.
+          cbn [firstn]. unfold matching at 1. cbn [filter]. change (eqk (key, pv)) with (key =? key). rewrite N.eqb_refl. cbn [map snd].
+          replace (S (N.to_nat (pi - 1))) with (N.to_nat pi) by lia.
+          fold (matching (firstn (N.to_nat (hi - pi - 1)) (skipn (N.to_nat pi) tbl))).
+          rewrite <- (read_ahead_matching (skipn (N.to_nat pi) tbl) (N.to_nat (hi - pi - 1))).
+          -- cbn [app]. apply Permutation_trans with (l' := (pv :: read_ahead key (N.to_nat (hi - pi - 1)) (skipn (N.to_nat pi) tbl)) ++ acc).
+             ++ apply Permutation_app_comm.
+             ++ cbn [app]. constructor. apply Permutation_app_head. exact Hacc.
+          -- apply sorted_skipn. exact Hsorted.
+          -- intros x Hx. replace (N.to_nat pi) with (S (N.to_nat (pi - 1))) in Hx by lia.
+             pose proof (after_ge _ _ Hn x) as A. cbn [fst] in A. apply A. rewrite (skipn_cons_nth _ _ _ Hn). right. exact Hx.
+      + (* the probe is above the key: everything from pi on is larger *)
+        apply IH; try lia.
+        * intros G'. unfold clamp. destruct (pi <? _); lia.
+        * exact Hbelow.
+        * rewrite (vals_ge_split pi hi) by lia. unfold matching at 1. rewrite filter_none; [cbn [map app]; exact Hacc|].
+          intros x Hx. apply in_firstn' in Hx. pose proof (after_ge _ _ Hn x Hx) as A. cbn [fst] in A. unfold eqk. apply N.eqb_neq. lia.
+      + (* the probe is below the key: everything up to pi is smaller *)
+        apply IH; try lia.
+        * intros G'. unfold clamp. destruct (_ <=? _); lia.
+        * intros i x Hi Hlt. assert (fst x <= pk); [|lia].
+          change pk with (fst (pk, pv)). eapply (sorted_nth tbl Hsorted i (N.to_nat (pi - 1))); eauto. lia.
+        * exact Hacc.
+  Qed.
+
+  (* ---- the search: every value stored under the key, nothing else, for every probe function ---- *)
+  Theorem search_exact cap : (0 < cap)%nat ->
+    exists l, search probe tbl cap key = Some (firstn cap l) /\ Permutation l (matching tbl).
+  Proof.
+    intro Hcap. unfold search. destruct cap as [|cap]; [lia|].
+    set (hi := N.of_nat (length tbl) + 1).
+    set (pi := clamp 0 hi (probe 0 0 hi u64max key)).
+    destruct (loop1_spec (S (length tbl)) 0 0 hi u64max pi []) as (lo' & hi' & acc' & Hl & H1 & H2 & Hb & Hp).
+    - unfold hi. lia.
+    - unfold hi. lia.
+    - unfold hi, n. lia.
+    - intro G. unfold pi, clamp, hi, READ_WINDOW_SIZE in *. lia.
+    - intros i e _ Hi. lia.
+    - unfold vals_ge, hi. replace (N.to_nat (N.of_nat (length tbl) + 1 - 1)) with (length tbl) by lia. rewrite skipn_all. constructor.
+    - rewrite Hl. eexists. split; [reflexivity|].
+      rewrite scan_window_matching by (apply sorted_skipn; exact Hsorted).
+      fold (vals_between lo' hi').
+      assert (Hsplit : matching tbl = matching (firstn (N.to_nat lo') tbl) ++ vals_between lo' hi' ++ vals_ge hi').
+      { unfold vals_between, vals_ge. rewrite <- !matching_app. f_equal. rewrite <- (firstn_skipn (N.to_nat lo') tbl) at 1. f_equal.
+        rewrite <- (firstn_skipn (N.to_nat (hi' - lo' - 1)) (skipn (N.to_nat lo') tbl)) at 1. f_equal.
+        rewrite skipn_skipn'. f_equal. lia. }
+      assert (Hnone : matching (firstn (N.to_nat lo') tbl) = []).
+      { unfold matching. rewrite filter_none; [reflexivity|]. intros e He. apply In_nth_error in He as [i Hi].
+        assert (Hlt : (i < N.to_nat lo')%nat).
+        { assert (i < length (firstn (N.to_nat lo') tbl))%nat by (apply nth_error_Some; congruence). rewrite firstn_length in H. lia. }
+        assert (Hi' : nth_error tbl i = Some e).
+        { clear -Hi Hlt. revert i Hi Hlt. generalize (N.to_nat lo') as m. induction tbl as [|y r IH]; intros m i Hi Hlt; [destruct m, i; discriminate|].
+          destruct m as [|m]; [lia|]. destruct i as [|i]; cbn [firstn nth_error] in *; [exact Hi | eapply IH; eauto; lia]. }
+        specialize (Hb i e Hi' Hlt). unfold eqk. apply N.eqb_neq. lia. }
+      rewrite Hsplit, Hnone. cbn [app].
+      apply Permutation_trans with (l' := vals_between lo' hi' ++ acc'); [apply Permutation_app_comm | apply Permutation_app_head; exact Hp].
   Qed.
 End SearchCorrect.
